@@ -77,6 +77,10 @@ def canon_guard(facts, a, summ):
             return "some:" + component_of(facts, ("accessor", x[1], "some"), summ)
         if x[0] == "call" and x[1].endswith("::next"):
             return "loop_item"
+    if a[0] == "is" and a[2] == "None":
+        x = a[1]
+        if x[0] == "call" and x[1].endswith("::next"):
+            return None  # the loop ran to exhaustion: holds on every path that leaves the loop (its termination is C06's LOOP rule)
     return "unknown:" + show_atom(a)
 
 
